@@ -121,7 +121,11 @@ fn exec(c: &Case) -> Vec<String> {
                     done = true;
                     break;
                 }
-                StreamElement::FlushBatch => break, // timeout marker of the protocol
+                StreamElement::FlushBatch => {
+                    // timeout-generated FlushBatch: the marker of the protocol, and a real output
+                    out.push(format!("{i} FB"));
+                    break;
+                }
                 e => out.push(format!("{i} {}", fmt_elem(&e))),
             }
         }
